@@ -183,14 +183,14 @@
         ensures ((b >> sh) & 1u8) as int == ((b as int) / p2(sh as int)) % 2,
     {
         lemma2_to64();
-        if sh == 0 { assert(((b >> 0u8) & 1u8) == b % 2u8) by (bit_vector); }
-        if sh == 1 { assert(((b >> 1u8) & 1u8) == (b / 2u8) % 2u8) by (bit_vector); }
-        if sh == 2 { assert(((b >> 2u8) & 1u8) == (b / 4u8) % 2u8) by (bit_vector); }
-        if sh == 3 { assert(((b >> 3u8) & 1u8) == (b / 8u8) % 2u8) by (bit_vector); }
-        if sh == 4 { assert(((b >> 4u8) & 1u8) == (b / 16u8) % 2u8) by (bit_vector); }
-        if sh == 5 { assert(((b >> 5u8) & 1u8) == (b / 32u8) % 2u8) by (bit_vector); }
-        if sh == 6 { assert(((b >> 6u8) & 1u8) == (b / 64u8) % 2u8) by (bit_vector); }
-        if sh == 7 { assert(((b >> 7u8) & 1u8) == (b / 128u8) % 2u8) by (bit_vector); }
+        if sh == 0 { assert(p2(0) == 1); let r = (b >> 0u8) & 1u8; assert(r == (b / 1u8) % 2u8) by (bit_vector) requires r == (b >> 0u8) & 1u8; assert((b / 1u8) as int == (b as int) / 1); }
+        if sh == 1 { assert(p2(1) == 2); let r = (b >> 1u8) & 1u8; assert(r == (b / 2u8) % 2u8) by (bit_vector) requires r == (b >> 1u8) & 1u8; assert((b / 2u8) as int == (b as int) / 2); }
+        if sh == 2 { assert(p2(2) == 4); let r = (b >> 2u8) & 1u8; assert(r == (b / 4u8) % 2u8) by (bit_vector) requires r == (b >> 2u8) & 1u8; assert((b / 4u8) as int == (b as int) / 4); }
+        if sh == 3 { assert(p2(3) == 8); let r = (b >> 3u8) & 1u8; assert(r == (b / 8u8) % 2u8) by (bit_vector) requires r == (b >> 3u8) & 1u8; assert((b / 8u8) as int == (b as int) / 8); }
+        if sh == 4 { assert(p2(4) == 16); let r = (b >> 4u8) & 1u8; assert(r == (b / 16u8) % 2u8) by (bit_vector) requires r == (b >> 4u8) & 1u8; assert((b / 16u8) as int == (b as int) / 16); }
+        if sh == 5 { assert(p2(5) == 32); let r = (b >> 5u8) & 1u8; assert(r == (b / 32u8) % 2u8) by (bit_vector) requires r == (b >> 5u8) & 1u8; assert((b / 32u8) as int == (b as int) / 32); }
+        if sh == 6 { assert(p2(6) == 64); let r = (b >> 6u8) & 1u8; assert(r == (b / 64u8) % 2u8) by (bit_vector) requires r == (b >> 6u8) & 1u8; assert((b / 64u8) as int == (b as int) / 64); }
+        if sh == 7 { assert(p2(7) == 128); let r = (b >> 7u8) & 1u8; assert(r == (b / 128u8) % 2u8) by (bit_vector) requires r == (b >> 7u8) & 1u8; assert((b / 128u8) as int == (b as int) / 128); }
     }
     // ---- FIPS 204 Algorithm 32 (ExpandA): A[r][s] = RejNTTPoly(rho || IntegerToBytes(s,1) || IntegerToBytes(r,1))
     pub open spec fn expand_a_seed(rho: Seq<u8>, s: int, r: int) -> Seq<u8> { rho + seq![s as u8] + seq![r as u8] }
